@@ -76,6 +76,11 @@ def sources(pairs, model, mds_pairs, args, ntu=16):
         elif what == 'arr':
             ex = 'std::is_constructible_v<%s, const std::array<%s, %d>&>' % (E, T, n)
             tus[k % ntu].append('  out[%d] = std::string("ok ") + num(%s) + " expl=" + num(%s && !std::is_convertible_v<const std::array<%s, %d>&, %s>);' % (k, ex, ex, T, n, E)); k += 1; continue
+        elif what in ('sarr', 'sspan'):      # layout_stride::mapping(extents, array / span of strides): constrained on `const T&`
+            M = 'md::layout_stride::mapping<%s>' % E
+            if what == 'sarr': ex = 'std::is_constructible_v<%s, const %s&, const std::array<%s, %d>&>' % (M, E, T, n)
+            else:
+                tus[k % ntu].append('#if __cplusplus >= 202002L\n  out[%d] = std::string("ok ") + num(std::is_constructible_v<%s, const %s&, std::span<%s, %d>>);\n#else\n  out[%d] = "na";\n#endif' % (k, M, E, T, n, k)); k += 1; continue
         elif what == 'br1': ex = 'vh::canBr<md::mdspan<int, %s, md::layout_%s>, %s>::value' % (E, lay, T)
         else: ex = 'std::is_constructible_v<md::mdspan<int, %s, md::layout_%s>, int*%s>' % (E, lay, (', ' + pack) if n else '')
         tus[k % ntu].append('  out[%d] = std::string("ok ") + num(%s);' % (k, ex)); k += 1
@@ -174,10 +179,18 @@ def check(prop, tier, seed, replay=None):
     for rd in (0, 1):
         for ak in ARGK:
             for lay in ('left', 'stride'): args.append(('br1', 1, rd, 1, ak, lay))
+    stride_args = []
+    for what in ('sarr', 'sspan'):
+        for rank in range(0, 4):
+            for n in range(0, rank + 2):
+                for ak in ARGK:
+                    if ak == 'NotConv' and n == 0: continue
+                    stride_args.append((what, rank, rank if rank < 2 else rank - 1, n, ak, 'stride'))
     if not thorough: args = rnd.sample([a for a in args if a[0] != 'br1'], 700) + [a for a in args if a[0] == 'br1']
+    args += stride_args
     # an empty pack is vacuously convertible / nothrow-constructible
-    KT = lambda a: (ARGK_C if a[0] == 'arr' else ARGK)[a[4]]
-    arg_lines = ['c16 args what=%s rank=%d rd=%d n=%d conv=%d nothrow=%d lay=%s' % ('call' if a[0] == 'br1' else a[0], a[1], a[2], a[3], KT(a)[1] if (a[3] or a[0] == 'arr') else 1, KT(a)[2] if (a[3] or a[0] == 'arr') else 1, a[5]) for a in args]
+    KT = lambda a: (ARGK_C if a[0] in ('arr', 'sarr', 'sspan') else ARGK)[a[4]]
+    arg_lines = ['c16 args what=%s rank=%d rd=%d n=%d conv=%d nothrow=%d lay=%s' % ('call' if a[0] in ('br1', 'sarr', 'sspan') else a[0], a[1], a[2], a[3], KT(a)[1] if (a[3] or a[0] in ('arr', 'sarr', 'sspan')) else 1, KT(a)[2] if (a[3] or a[0] in ('arr', 'sarr', 'sspan')) else 1, a[5]) for a in args]
     arg_model = C.driver(arg_lines)
     rep.notes['probes'] = dict(mapping_pairs=len(pairs), mdspan_pairs=len(mds), argument_packs=len(args))
     rep.notes['mandated_hard_error_pairs_skipped_for_instantiation'] = sum(1 for m in model if m.get('hard') == '1')
@@ -229,9 +242,10 @@ def check(prop, tier, seed, replay=None):
             if xi.get('ctor') != m['ctor'] or xi.get('conv') != mconv: rep.broke(dict(correspondence='C16 mdspan traits vs Impl.mds*', impl=out[k - 1], model=str(m), **pub))
         for a, ml, xm in zip(args, arg_lines, arg_model):
             xi = out[k]; k += 1; rep.cov['evaluations'] += 1
-            what, rank, rd, n, ak, lay = a; conv, noth = ((ARGK_C if what == 'arr' else ARGK)[ak][1], (ARGK_C if what == 'arr' else ARGK)[ak][2]) if (n or what == 'arr') else (1, 1)
+            what, rank, rd, n, ak, lay = a; cst = what in ('arr', 'sarr', 'sspan'); conv, noth = ((ARGK_C if cst else ARGK)[ak][1], (ARGK_C if cst else ARGK)[ak][2]) if (n or cst) else (1, 1)
+            if xi == 'na': continue      # std::span forms exist from C++20 on
             if what == 'ext': want = 'ok %d' % (1 if (n == 0 or (conv and noth and n in (rank, rd))) else 0)
-            elif what in ('call', 'br1'): want = 'ok %d' % (1 if (conv and noth and n == rank) else 0)
+            elif what in ('call', 'br1', 'sarr', 'sspan'): want = 'ok %d' % (1 if (conv and noth and n == rank) else 0)
             elif what == 'arr':
                 ok = conv and noth and n in (rank, rd); want = 'ok %d expl=%d' % (1 if ok else 0, 1 if (ok and n != rd and not cxx17) else 0)
             else: want = 'ok %d' % (1 if (conv and noth and n in (rank, rd) and lay != 'stride') else 0)
